@@ -178,6 +178,11 @@ func init() {
 				}
 			}
 			if !others {
+				for _, t := range c.m.threads {
+					if t != c.t {
+						c.t.clock = vcJoin(c.t.clock, t.clock)
+					}
+				}
 				c.ret(nil)
 				return
 			}
